@@ -16,31 +16,37 @@ class C05(ProgProp):
             "line table with a |delta| >= 128 or a decreasing line; distinct = (version, line starts)")
     assumptions = ["CPython's dis.findlinestarts is ground truth; 3.13 starts_line is a bool: line_number is used"]
 
-    def strategy(self, ctx):
+    def strata(self, ctx):
         from hypothesis import strategies as st
         from vf.gen import prog as gp
+        from vf.gen import tables as gt
         from vf.pool import HOSTS
-        base = super().strategy(ctx)
-
-        @st.composite
-        def host_case(draw):
-            h = draw(st.sampled_from(HOSTS))
-            return {"k": "host", "host": h, "src": draw(gp.programs(h, size=draw(st.integers(2, 4)), bulk=False))}
+        out = super().strata(ctx)
+        for h in HOSTS:
+            out.append(["host:" + h, st.integers(2, 4).flatmap(lambda n, h=h: gp.programs(h, size=n, bulk=False)).map(
+                lambda src, h=h: {"k": "host", "host": h, "src": src}), 2])
         # offset2line(): sorted (offset, line) lists and query offsets; model = linear scan
         offs = st.lists(st.integers(0, 70000), min_size=0, max_size=12, unique=True).map(sorted)
         o2l = st.tuples(offs, st.lists(st.integers(0, 100000), min_size=12, max_size=12),
                         st.lists(st.integers(-5, 70010), min_size=1, max_size=8)).map(
             lambda p: {"k": "o2l", "starts": [[o, p[1][i]] for i, o in enumerate(p[0])], "queries": p[2]})
+        out.append(["offset2line", o2l, 6])
+        # every opcode table's findlinestarts: grouped by lnotab family, the table drawn inside
         names = self.table_names()
-        from vf.gen import tables as gt
-
-        @st.composite
-        def tabfam(draw):
-            name = draw(st.sampled_from(names))
-            c = draw(gt.lnotab_cases(self.table_vt(name)))
-            c.update({"k": "tabfam", "opc": name})
-            return c
-        return st.one_of(base, base, base, base, host_case(), o2l, tabfam())
+        groups = {}
+        for n in names:
+            vt = self.table_vt(n)
+            g = ("pypy" if "pypy" in n else "cpython") + ("<3.6" if vt < (3, 6) else ("3.6-3.7" if vt < (3, 8) else "3.8-3.9"))
+            groups.setdefault(g, []).append(n)
+        for g, members in sorted(groups.items()):
+            @st.composite
+            def tabfam(draw, members=members):
+                name = draw(st.sampled_from(members))
+                c = draw(gt.lnotab_cases(self.table_vt(name)))
+                c.update({"k": "tabfam", "opc": name})
+                return c
+            out.append(["any-table:" + g, tabfam(), 3])
+        return out
 
     @staticmethod
     def table_vt(name):
